@@ -162,6 +162,7 @@ fn run_adf(id: &str, lines: &[String], out: &mut String) {
     let mut text = String::new();
     let mut sort = "none".to_string();
     let mut queries: Vec<Vec<String>> = Vec::new();
+    let mut seed: Option<u8> = None;
     for line in lines {
         let w: Vec<&str> = line.split_whitespace().collect();
         if w.is_empty() {
@@ -170,7 +171,8 @@ fn run_adf(id: &str, lines: &[String], out: &mut String) {
         match w[0] {
             "text" => text = if w.len() > 1 { unhex(w[1]) } else { String::new() },
             "sort" => sort = w[1].to_string(),
-            "cfg" => {}
+            "cfg" | "draws" | "flags" => {}
+            "seed" => seed = Some(w[1].parse::<u8>().unwrap()),
             "q" => queries.push(w[1..].iter().map(|s| s.to_string()).collect()),
             _ => panic!("bad adf line {}", line),
         }
@@ -207,6 +209,14 @@ fn run_adf(id: &str, lines: &[String], out: &mut String) {
         }
     };
     writeln!(out, "{} ac {}", id, handles_string(&adf.ac)).unwrap();
+    if let Some(sd) = seed {
+        // Rand: seed the ADF's generator and print the draw stream of an identically seeded StdRng
+        use rand::{RngCore, SeedableRng};
+        adf.seed([sd; 32]);
+        let mut rng = rand::rngs::StdRng::from_seed([sd; 32]);
+        let d: Vec<String> = (0..4000).map(|_| rng.next_u64().to_string()).collect();
+        writeln!(out, "{} draws {}", id, d.join(" ")).unwrap();
+    }
     for (k, q) in queries.iter().enumerate() {
         let qid = format!("q{}", k);
         match q[0].as_str() {
@@ -306,18 +316,32 @@ fn main() {
             buf.clear();
         } else if w.first() == Some(&"END") {
             if let Some((id, kind, rest)) = cur.take() {
-                let mut out = String::new();
-                let r = catch_unwind(AssertUnwindSafe(|| match kind.as_str() {
-                    "PROG" => run_prog(&id, &buf, &mut out),
-                    "ADF" => run_adf(&id, &buf, &mut out),
-                    "ITER2" | "ITER3" => run_iter(&id, &kind, &buf, &mut out),
-                    "PARSE" => run_parse(&id, &buf, &mut out),
-                    _ => extra::run_case(&id, &kind, &rest, &buf, &mut out),
-                }));
-                if r.is_err() {
-                    writeln!(out, "{} PANIC", id).unwrap();
+                // every case runs in its own thread under a watchdog: non-termination is an observation
+                let lines = buf.clone();
+                let id2 = id.clone();
+                let (tx, rx) = std::sync::mpsc::channel::<String>();
+                std::thread::Builder::new()
+                    .stack_size(256 * 1024 * 1024)
+                    .spawn(move || {
+                        let mut out = String::new();
+                        let r = catch_unwind(AssertUnwindSafe(|| match kind.as_str() {
+                            "PROG" => run_prog(&id2, &lines, &mut out),
+                            "ADF" => run_adf(&id2, &lines, &mut out),
+                            "ITER2" | "ITER3" => run_iter(&id2, &kind, &lines, &mut out),
+                            "PARSE" => run_parse(&id2, &lines, &mut out),
+                            _ => extra::run_case(&id2, &kind, &rest, &lines, &mut out),
+                        }));
+                        if r.is_err() {
+                            writeln!(out, "{} PANIC", id2).unwrap();
+                        }
+                        let _ = tx.send(out);
+                    })
+                    .unwrap();
+                let limit: u64 = std::env::var("VERIF_CASE_TIMEOUT_MS").ok().and_then(|x| x.parse().ok()).unwrap_or(20000);
+                match rx.recv_timeout(std::time::Duration::from_millis(limit)) {
+                    Ok(out) => so.write_all(out.as_bytes()).unwrap(),
+                    Err(_) => so.write_all(format!("{} TIMEOUT\n", id).as_bytes()).unwrap(),
                 }
-                so.write_all(out.as_bytes()).unwrap();
             }
         } else {
             buf.push(line);
